@@ -52,6 +52,7 @@ func runC16(c *core.Ctx) {
 	c.Journal(d)
 	oa := drive.Run(drive.Single(p), argv)
 	ob := drive.Run(drive.Single(expl), argv)
+	c.LibDone()
 	c.Eval()
 	ka, kb := drive.OutcomeKey(p, oa), drive.OutcomeKey(p, ob)
 	if len(p.Opts)+len(p.Args) >= 1 && len(argv) >= 1 {
@@ -77,6 +78,7 @@ func runC16(c *core.Ctx) {
 		ha := usageLine(drive.Run(drive.Single(p), []string{"--help"}).Stderr)
 		hb := usageLine(drive.Run(drive.Single(expl), []string{"--help"}).Stderr)
 		want := strings.TrimRight("Usage: app "+expl.Spec, " ")
+		c.LibDone()
 		c.Eval()
 		if ha != want || hb != want {
 			c.Violation(fmt.Sprintf("usage line: want %q, no-spec twin %q, explicit twin %q", want, ha, hb), nil, nil)
